@@ -22,6 +22,7 @@ type thread struct {
 	what    string
 	name    string
 	harness bool
+	crashPending bool
 }
 
 type sched struct {
@@ -36,6 +37,9 @@ type sched struct {
 	chanCnt      int
 	selectFork   bool
 	schedTrace   []string
+	crashOwner   *thread
+	deferSpawn   bool
+	crashBase    int
 }
 
 func (i *interpreter) initSched() {
@@ -73,6 +77,10 @@ func (i *interpreter) switchTo(t *thread) {
 	<-prev.wake
 	if i.aborting {
 		panic(abortAll{"run aborted"})
+	}
+	if prev.crashPending {
+		prev.crashPending = false
+		panic(processCrash{"(another goroutine of the process died)"})
 	}
 }
 
@@ -179,6 +187,18 @@ func (i *interpreter) spawnThread(pos token.Pos, fn value, args []value, harness
 			if i.aborting {
 				return
 			}
+			if pc, ok := p.(processCrash); ok && i.crashOwner != nil {
+				// the simulated process dies: every thread it started is gone, the
+				// thread that waits in vsym.UntilCrash takes over
+				_ = pc
+				owner := i.crashOwner
+				i.killProcessThreads()
+				owner.crashPending = true
+				owner.waitFor = nil
+				i.cur = owner
+				owner.wake <- struct{}{}
+				return
+			}
 			if p != nil {
 				if !isControl(p) {
 					p = crashed{"panic in goroutine " + name + ": " + panicString(p)}
@@ -206,18 +226,30 @@ func (i *interpreter) spawnThread(pos token.Pos, fn value, args []value, harness
 		i.yield("go")
 		return
 	}
+	if i.deferSpawn {
+		return // the new goroutine runs only once its creator blocks or ends
+	}
 	i.switchTo(t)
+}
+
+// killProcessThreads marks every thread started since UntilCrash began as dead.
+func (i *interpreter) killProcessThreads() {
+	for _, t := range i.threads {
+		if t.id >= i.crashBase && t != i.crashOwner {
+			t.done = true
+		}
+	}
 }
 
 // endRun unwinds every parked thread; called by the driver after the main thread finished.
 func (i *interpreter) endRun() {
 	i.aborting = true
 	for _, t := range i.threads[1:] {
-		if !t.done {
-			select {
-			case t.wake <- struct{}{}:
-			default:
-			}
+		// every goroutine that has not exited yet is parked on its wake channel
+		// (also those of a "dead" simulated process): wake them so that they unwind
+		select {
+		case t.wake <- struct{}{}:
+		default:
 		}
 	}
 	i.wg.Wait()
